@@ -140,6 +140,44 @@ def extreme_cases_wide(bundles=(0, 1, 2), rotate=False):
     return out
 
 
+def named_countries():
+    """countries the model's own source singles out by name or code (quoted literals in src/, the import scripts and the utilities'
+    code list excluded): hand-written exceptions live there - SLV / ALB / ECU rewrite rules, the NZL hold-back, the SWT alias, ...
+    Read from the tree under test, so a newly special-cased country is picked up too."""
+    import glob
+    import re
+    t = country_table()
+    iso = set(t["iso3"])
+    names = dict(zip(t["country"], t["iso3"]))
+    out = set()
+    for fn in sorted(glob.glob(os.path.join("src", "**", "*.py"), recursive=True)):
+        if "import_scripts" in fn or fn.endswith("import_utilities.py"):
+            continue
+        for m in re.finditer(r"""["']([^"'\n]{2,40})["']""", open(fn, encoding="utf-8").read()):
+            lit = m.group(1)
+            if lit in iso:
+                out.add(lit)
+            elif lit in names:
+                out.add(names[lit])
+    return sorted(out)
+
+
+def named_country_cases(per_country=None, seed=0):
+    """(iso3, options): every named country under the full product of the four families that steer the three rounds (breeding strategy,
+    stock regime, culled meat, shut-off schedule: 168 combinations) - or a seeded sample of per_country of them - in nuclear winter"""
+    import itertools
+    fam = COUNTRY_FAMILIES
+    combos = list(itertools.product(fam["meat_strategy"], fam["ratio_stocks_untouched"], fam["cull"], fam["shutoff"]))
+    rng = np.random.RandomState(1000 + seed)
+    out = []
+    for iso in named_countries():
+        pick = combos if per_country is None else [combos[k] for k in rng.choice(len(combos), size=per_country, replace=False)]
+        for ms, rs, cu, sh in pick:
+            out.append((iso, dict(BASELINE_COUNTRY, crop_disruption="country_nuclear_winter", grasses="country_nuclear_winter",
+                                  fish="nuclear_winter", meat_strategy=ms, ratio_stocks_untouched=rs, cull=cu, shutoff=sh, NMONTHS=48)))
+    return out
+
+
 def run_fixed(ctx, cases, fn):
     """run fn(iso3, options, k) for this shard's share of a fixed case list, collecting violations"""
     from vlib.harness import Violation
